@@ -218,6 +218,7 @@ func (r *NgReader) readOption() error {
 		}
 		return nil
 	}
+	r.currentOption.value = r.currentOption.value[:0]
 	if length != 0 {
 		if length < uint16(cap(r.currentOption.value)) {
 			r.currentOption.value = r.currentOption.value[:length]
